@@ -3,8 +3,12 @@
 //   - seeded keys and an ECDSA signer with a chosen nonce (so that R/S shapes can be selected),
 //     public-key and DER encodings including the malformed ones;
 //   - the specification of the script code (walk the opcodes: the code starts after the most
-//     recently executed OP_CODESEPARATOR; legacy: minus the pushes containing the signature(s) of
-//     the operation and minus all separators; FORKID flag + FORKID bit: untouched);
+//     recently executed OP_CODESEPARATOR; every opcode that is byte for byte the push of one of the
+//     operation's signatures that are not (FORKID flag + FORKID bit) is removed - FindAndDelete of
+//     CScript() << sig, OP_0 for an empty signature -; for the original digest all separators are
+//     removed as well; the FORKID digest sees them);
+//   - the node's signature check (CPubKey::Verify: key validity by prefix and length, the lax DER
+//     parser, ECDSA) and its LOW_S rule (a signature out of range is not high S);
 //   - the signature digest via the library's CalcInputSignatureHash on a copy (verified separately
 //     by C02/C03);
 //   - the flag table (BIP62 strict encoding / BIP66 / low-S / BIP147 null dummy / BIP146 null fail /
@@ -30,6 +34,7 @@ const (
 	FStrictMultiSig = 1 << 1 // NULLDUMMY
 	FDERSig         = 1 << 6
 	FLowS           = 1 << 7
+	FMinimalData    = 1 << 8
 	FNullFail       = 1 << 9
 	FForkID         = 1 << 11
 	FStrictEnc      = 1 << 12
@@ -95,7 +100,14 @@ const (
 	NumPK
 )
 
-var PKNames = []string{"compressed", "uncompressed", "hybrid", "short", "long", "badprefix", "notoncurve", "empty"}
+// beyond the rotation of the older families
+const (
+	PKPrefix05Long      = NumPK     // 0x05 + X + Y (65 bytes): go-bk parses it as uncompressed, the node does not know the prefix
+	PKHybridWrongParity = NumPK + 1 // 0x06/0x07 with the parity bit flipped: nobody parses it
+	PKOneZeroByte       = NumPK + 2 // the single byte 00
+)
+
+var PKNames = []string{"compressed", "uncompressed", "hybrid", "short", "long", "badprefix", "notoncurve", "empty", "prefix05-65bytes", "hybrid-wrong-parity", "one-zero-byte"}
 
 func (k Key) Enc(kind int) []byte {
 	switch kind {
@@ -113,6 +125,16 @@ func (k Key) Enc(kind int) []byte {
 	case PKBadPrefix:
 		b := k.Pub.SerialiseCompressed()
 		b[0] = 0x05
+		return b
+	case PKPrefix05Long:
+		b := k.Pub.SerialiseUncompressed()
+		b[0] = 0x05
+		return b
+	case PKOneZeroByte:
+		return []byte{0x00}
+	case PKHybridWrongParity:
+		b := k.Pub.SerialiseHybrid()
+		b[0] ^= 1
 		return b
 	case PKNotOnCurve:
 		b := k.Pub.SerialiseCompressed()
@@ -177,7 +199,27 @@ const (
 	NumSigShapes
 )
 
-var SigNames = []string{"good", "highS", "padR", "padS", "negR", "negS", "badlen", "trailing", "trailing-in", "badseqtag", "badinttag", "zerolenR", "toolong", "tooshort", "minimal", "S=n/2", "S=n/2+1"}
+// beyond the rotation of the older families (all strict DER unless said otherwise; none verifies
+// except the lax ones)
+const (
+	SigSNm1        = NumSigShapes + iota // S = n-1: the highest high S
+	SigSN                                // S = n: out of range, not high S
+	SigSNp1                              // S = n+1
+	SigSNp5                              // S = n+5
+	SigRNm1SNm1                          // R = n-1 (in range), S = n-1: high S
+	SigRNSNm1                            // R = n, S = n-1: out of range, not high S
+	SigRNp1SNm1                          // R = n+1, S = n-1
+	SigRNp5SNm1                          // R = n+5, S = n-1
+	SigLongRShortS                       // R of 40 bytes, S = 1: strict DER, out of range
+	SigZeroR                             // 3006020100020101: strict DER, go-bk refuses R = 0
+	SigSeqLenBig                         // a valid signature whose sequence length byte is 0x50 (lax DER only)
+	SigSeqLenSmall                       // ... is 0x10
+	SigLongFormLen                       // ... whose sequence and R lengths use the long form 81 xx
+	NumSigShapesAll
+)
+
+var SigNames = []string{"good", "highS", "padR", "padS", "negR", "negS", "badlen", "trailing", "trailing-in", "badseqtag", "badinttag", "zerolenR", "toolong", "tooshort", "minimal", "S=n/2", "S=n/2+1",
+	"S=n-1", "S=n", "S=n+1", "S=n+5", "R=n-1,S=n-1", "R=n,S=n-1", "R=n+1,S=n-1", "R=n+5,S=n-1", "R-40-bytes", "R=0", "seqlen-big", "seqlen-small", "long-form-lengths"}
 
 func derInt(v *big.Int) []byte {
 	b := v.Bytes()
@@ -271,6 +313,30 @@ func SignShape(r *common.Rand, d *big.Int, hash []byte, shape int) []byte {
 			return derSeq(rb, derInt(halfN))
 		case SigHalfSPlus1:
 			return derSeq(rb, derInt(new(big.Int).Add(halfN, big.NewInt(1))))
+		case SigSNm1, SigSN, SigSNp1, SigSNp5:
+			off := map[int]int64{SigSNm1: -1, SigSN: 0, SigSNp1: 1, SigSNp5: 5}[shape]
+			return derSeq(rb, derInt(new(big.Int).Add(curve.N, big.NewInt(off))))
+		case SigRNm1SNm1, SigRNSNm1, SigRNp1SNm1, SigRNp5SNm1:
+			off := map[int]int64{SigRNm1SNm1: -1, SigRNSNm1: 0, SigRNp1SNm1: 1, SigRNp5SNm1: 5}[shape]
+			return derSeq(derInt(new(big.Int).Add(curve.N, big.NewInt(off))), derInt(new(big.Int).Sub(curve.N, big.NewInt(1))))
+		case SigLongRShortS:
+			long := append([]byte{0x01}, make([]byte, 39)...)
+			return derSeq(long, []byte{0x01})
+		case SigZeroR:
+			return []byte{0x30, 0x06, 0x02, 0x01, 0x00, 0x02, 0x01, 0x01}
+		case SigSeqLenBig:
+			b := derSeq(rb, sb)
+			b[1] = 0x50
+			return b
+		case SigSeqLenSmall:
+			b := derSeq(rb, sb)
+			b[1] = 0x10
+			return b
+		case SigLongFormLen:
+			out := []byte{0x30, 0x81, byte(5 + len(rb) + len(sb)), 0x02, 0x81, byte(len(rb))}
+			out = append(out, rb...)
+			out = append(out, 0x02, byte(len(sb)))
+			return append(out, sb...)
 		}
 		panic("shape")
 	}
@@ -308,12 +374,141 @@ func StrictDER(sig []byte) bool {
 	return true
 }
 
-// LowS on a strict-DER body: S <= N/2.
+// LowS on a strict-DER body: the node's IsLowDERSignature. The signature is read with the lax parser;
+// when R or S is not below the group order it is read as the null signature, which is not high. So:
+// high S means R and S in range and S > N/2.
 func LowS(sig []byte) bool {
 	lenR := int(sig[3])
 	lenS := int(sig[5+lenR])
+	r := new(big.Int).SetBytes(sig[4 : 4+lenR])
 	s := new(big.Int).SetBytes(sig[6+lenR : 6+lenR+lenS])
+	if r.Cmp(curve.N) >= 0 || s.Cmp(curve.N) >= 0 {
+		return true
+	}
 	return s.Cmp(halfN) <= 0
+}
+
+// ---------- the node's signature check ----------
+
+// NodePubKeyValid is CPubKey::IsValid after construction from the bytes: the length announced by the
+// prefix (02/03: 33, 04/06/07: 65) must be the length of the key.
+func NodePubKeyValid(pk []byte) bool {
+	if len(pk) == 0 {
+		return false
+	}
+	switch pk[0] {
+	case 2, 3:
+		return len(pk) == 33
+	case 4, 6, 7:
+		return len(pk) == 65
+	}
+	return false
+}
+
+// LaxDER is ecdsa_signature_parse_der_lax: ok = the parser returns 1; r, s are the scalars it hands to
+// the verification (both zero when a component is 33 significant bytes or more, or not below the group order).
+func LaxDER(in []byte) (r, s *big.Int, ok bool) {
+	zero := func() (*big.Int, *big.Int, bool) { return new(big.Int), new(big.Int), true }
+	pos := 0
+	n := len(in)
+	if pos == n || in[pos] != 0x30 {
+		return nil, nil, false
+	}
+	pos++
+	if pos == n {
+		return nil, nil, false
+	}
+	lenbyte := int(in[pos])
+	pos++
+	if lenbyte&0x80 != 0 {
+		lenbyte -= 0x80
+		if lenbyte > n-pos {
+			return nil, nil, false
+		}
+		pos += lenbyte
+	}
+	integer := func() (start, length int, ok bool) {
+		if pos == n || in[pos] != 0x02 {
+			return 0, 0, false
+		}
+		pos++
+		if pos == n {
+			return 0, 0, false
+		}
+		lb := int(in[pos])
+		pos++
+		l := 0
+		if lb&0x80 != 0 {
+			lb -= 0x80
+			if lb > n-pos {
+				return 0, 0, false
+			}
+			for lb > 0 && in[pos] == 0 {
+				pos++
+				lb--
+			}
+			if lb >= 4 {
+				return 0, 0, false
+			}
+			for lb > 0 {
+				l = l<<8 + int(in[pos])
+				pos++
+				lb--
+			}
+		} else {
+			l = lb
+		}
+		if l > n-pos {
+			return 0, 0, false
+		}
+		return pos, l, true
+	}
+	rpos, rlen, ok1 := integer()
+	if !ok1 {
+		return nil, nil, false
+	}
+	pos += rlen
+	spos, slen, ok2 := integer()
+	if !ok2 {
+		return nil, nil, false
+	}
+	for rlen > 0 && in[rpos] == 0 {
+		rlen--
+		rpos++
+	}
+	for slen > 0 && in[spos] == 0 {
+		slen--
+		spos++
+	}
+	if rlen > 32 || slen > 32 {
+		return zero()
+	}
+	r = new(big.Int).SetBytes(in[rpos : rpos+rlen])
+	s = new(big.Int).SetBytes(in[spos : spos+slen])
+	if r.Cmp(curve.N) >= 0 || s.Cmp(curve.N) >= 0 {
+		return zero()
+	}
+	return r, s, true
+}
+
+// NodeVerify is CPubKey::Verify: a valid key (prefix and length, on the curve, hybrid keys with the
+// right parity), the lax DER parser, then ECDSA on (r, s) - a high S verifies like its low twin.
+// The curve arithmetic is go-bk's (ParsePubKey for the point, Signature.Verify on the parsed scalars).
+func NodeVerify(pk, hash, body []byte) bool {
+	if !NodePubKeyValid(pk) {
+		return false
+	}
+	p, ok := ParsePub(pk)
+	if !ok {
+		return false
+	}
+	r, s, ok := LaxDER(body)
+	if !ok || r.Sign() == 0 || s.Sign() == 0 {
+		return false
+	}
+	res := false
+	common.Safely(func() { res = (&bec.Signature{R: r, S: s}).Verify(hash, p) })
+	return res
 }
 
 // ---------- go-bk oracle (direct calls) ----------
@@ -425,9 +620,38 @@ func P(d []byte) Op {
 	return Op{Code: 0x4d, Data: d, LenForm: 2, Slot: -1}
 }
 
-// PForm pushes d with OP_PUSHDATA<form> even when a shorter form exists.
+// FormDirect as the form of PForm / SigSlot: a length-byte push (01..4b) even where a one-byte opcode
+// (OP_1..OP_16, OP_1NEGATE) exists; empty data stays OP_0.
+const FormDirect = 9
+
+// PForm pushes d with OP_PUSHDATA<form> (or, FormDirect, a length byte) even when a shorter form exists.
 func PForm(d []byte, form int) Op {
+	if form == FormDirect {
+		if len(d) == 0 || len(d) > 75 {
+			return P(d)
+		}
+		return Op{Code: byte(len(d)), Data: d, Slot: -1}
+	}
 	return Op{Code: map[int]byte{1: 0x4c, 2: 0x4d, 4: 0x4e}[form], Data: d, LenForm: form, Slot: -1}
+}
+
+// NodePush is the node's CScript() << d: the pattern FindAndDelete looks for. A length byte below 76
+// bytes (so 00 for the empty vector and 01 xx for one byte - never OP_1..OP_16 / OP_1NEGATE),
+// OP_PUSHDATA1/2/4 above.
+func NodePush(d []byte) []byte {
+	l := len(d)
+	var out []byte
+	switch {
+	case l < 0x4c:
+		out = []byte{byte(l)}
+	case l <= 0xff:
+		out = []byte{0x4c, byte(l)}
+	case l <= 0xffff:
+		out = []byte{0x4d, byte(l), byte(l >> 8)}
+	default:
+		out = []byte{0x4e, byte(l), byte(l >> 8), byte(l >> 16), byte(l >> 24)}
+	}
+	return append(out, d...)
 }
 
 // Num pushes a small integer.
@@ -485,7 +709,7 @@ func (o Op) resolve(sigs [][]byte) (Op, bool) {
 		r = PForm(d, o.LenForm)
 	}
 	r.Slot, r.Pre, r.Post = o.Slot, o.Pre, o.Post
-	return r, true
+	return r, true // r.LenForm is the form actually used
 }
 
 // Bytes serialises one opcode.
@@ -517,75 +741,63 @@ func Serialise(ops []Op, sigs [][]byte) []byte {
 	return out
 }
 
-// smallest push form (the form FindAndDelete / canonicalPush talk about)
-func canonicalForm(o Op) bool {
-	if !isPush(o.Code) {
-		return true
-	}
-	l := len(o.Data)
-	switch {
-	case o.Code >= 1 && o.Code <= 75:
-		return !(l == 1 && o.Data[0] <= 16)
-	case o.Code == 0x4c:
-		return l >= 76
-	case o.Code == 0x4d:
-		return l > 0xff
-	case o.Code == 0x4e:
-		return l > 0xffff
-	}
-	return true
-}
-
-// SpecCode is the script code of the signature operation at index at of script, per the
-// specification: the opcodes after the most recently executed OP_CODESEPARATOR before at, to the
-// end of the script; when legacy, minus every smallest-form push whose data contains one of the
-// signatures in strip (slot numbers; or, once known, their bytes) and minus every OP_CODESEPARATOR.
-// sigs holds the signatures known so far (needed when an un-stripped push carries one).
-// stripAnyForm is NOT the specification: it also removes non-minimal pushes (used to make signatures
-// that must be rejected).
-func SpecCode(script []Op, at int, legacy bool, strip map[int]bool, sigs [][]byte, stripAnyForm bool) []byte {
+// SpecCode is the script code of the signature operation at index at of script, per the node:
+// the opcodes after the most recently executed OP_CODESEPARATOR before at, to the end of the script,
+// minus every opcode whose serialisation is byte for byte the push (NodePush) of one of the
+// signatures in strip (FindAndDelete; strip = the operation's signatures that are not hashed with the
+// FORKID digest, empty ones included: their push is OP_0), and - legacy, i.e. for the original digest
+// of the signature being hashed - minus every OP_CODESEPARATOR.
+// sigs holds the signatures known so far; a signature not known yet is a fresh DER signature, so its
+// own smallest-form push is removed and nothing else can equal its push.
+// omitUnknown is NOT the specification: opcodes that stay but carry a signature not known yet are
+// left out (used to make signatures that must be rejected: no signature can cover its own copy).
+func SpecCode(script []Op, at int, legacy bool, strip map[int]bool, sigs [][]byte, omitUnknown bool) []byte {
 	start := 0
 	for i := 0; i < at; i++ {
 		if script[i].Code == 0xab && script[i].SepExec == 1 {
 			start = i + 1
 		}
 	}
+	known := func(slot int) bool { return sigs != nil && slot < len(sigs) && sigs[slot] != nil }
+	placeholder := make([]byte, 72) // a signature-sized stand-in: same push form as any DER signature
 	var out []byte
 	for _, o := range script[start:] {
-		if legacy {
-			if o.Code == 0xab {
+		if legacy && o.Code == 0xab && o.Slot < 0 {
+			continue
+		}
+		probe := sigs
+		unknown := o.Slot >= 0 && !known(o.Slot)
+		if unknown {
+			probe = make([][]byte, o.Slot+1)
+			probe[o.Slot] = placeholder
+		}
+		r, _ := o.resolve(probe)
+		ser := r.Bytes()
+		removed := false
+		for sl := range strip {
+			var pat []byte
+			switch {
+			case known(sl):
+				pat = NodePush(sigs[sl])
+			case sl == o.Slot:
+				pat = NodePush(placeholder)
+			default:
 				continue
 			}
-			if o.Slot >= 0 && strip[o.Slot] {
-				// the push carries a signature that is being removed; its form decides
-				probe := make([][]byte, o.Slot+1)
-				probe[o.Slot] = make([]byte, 72) // any signature-sized placeholder: only the form matters
-				if sigs != nil && o.Slot < len(sigs) && sigs[o.Slot] != nil {
-					probe[o.Slot] = sigs[o.Slot]
-				}
-				r, _ := o.resolve(probe)
-				if canonicalForm(r) || stripAnyForm {
-					continue
-				}
+			if bytes.Equal(ser, pat) {
+				removed = true
 			}
 		}
-		r, ok := o.resolve(sigs)
-		if !ok {
+		if removed {
+			continue
+		}
+		if unknown {
+			if omitUnknown {
+				continue
+			}
 			panic("sigspec: script code depends on a signature that is not known yet")
 		}
-		// a fixed push may also happen to contain a known signature that is being stripped
-		if legacy && isPush(r.Code) && canonicalForm(r) && o.Slot < 0 {
-			hit := false
-			for s := range strip {
-				if s < len(sigs) && sigs[s] != nil && bytes.Contains(r.Data, sigs[s]) {
-					hit = true
-				}
-			}
-			if hit {
-				continue
-			}
-		}
-		out = append(out, r.Bytes()...)
+		out = append(out, ser...)
 	}
 	return out
 }
